@@ -1,0 +1,95 @@
+// Read-only accessors for unexported pure code, used only by the /verif harness.
+// Compiled only with -tags verif; adds no behaviour and touches no existing line.
+
+//go:build verif && (!goexperiment.jsonv2 || !go1.25)
+
+package json
+
+import (
+	"reflect"
+	"time"
+)
+
+func VerifAppendDurationBase10(b []byte, d time.Duration, pow10 uint64) []byte {
+	return appendDurationBase10(b, d, pow10)
+}
+func VerifParseDurationBase10(b []byte, pow10 uint64) (time.Duration, error) {
+	return parseDurationBase10(b, pow10)
+}
+func VerifAppendDurationISO8601(b []byte, d time.Duration) []byte {
+	return appendDurationISO8601(b, d)
+}
+func VerifParseDurationISO8601(b []byte) (time.Duration, error) { return parseDurationISO8601(b) }
+func VerifAppendTimeUnix(b []byte, t time.Time, pow10 uint64) []byte {
+	return appendTimeUnix(b, t, pow10)
+}
+func VerifParseTimeUnix(b []byte, pow10 uint64) (time.Time, error) { return parseTimeUnix(b, pow10) }
+func VerifFoldName(in []byte) []byte                               { return foldName(in) }
+func VerifHash64(lo, hi uint32) uint32                             { return hash64(lo, hi) }
+
+// VerifStringCache wraps the interning cache of makeString.
+type VerifStringCache struct{ c stringCache }
+
+func (v *VerifStringCache) MakeString(b []byte) string { return makeString(&v.c, b) }
+
+// VerifUintSet wraps uintSet.
+type VerifUintSet struct{ s uintSet }
+
+func (v *VerifUintSet) Insert(i uint) bool { return v.s.insert(i) }
+func (v *VerifUintSet) Has(i uint) bool    { return v.s.has(i) }
+
+// VerifField is a read-only summary of one resolved structField.
+type VerifField struct {
+	ID             int
+	Index          []int // full index path (index0 followed by index)
+	Type           reflect.Type
+	Name           string
+	QuotedName     string
+	HasName        bool
+	NameNeedEscape bool
+	Casing         int8
+	Embed          bool
+	Omitzero       bool
+	Omitempty      bool
+	String         bool
+	Format         string
+}
+
+func verifField(f *structField) VerifField {
+	return VerifField{
+		ID: f.id, Index: append([]int{f.index0}, f.index...), Type: f.typ,
+		Name: f.name, QuotedName: f.quotedName, HasName: f.hasName, NameNeedEscape: f.nameNeedEscape,
+		Casing: f.casing, Embed: f.embed, Omitzero: f.omitzero, Omitempty: f.omitempty, String: f.string, Format: f.format,
+	}
+}
+
+// VerifStructFields reports the result of makeStructFields for t:
+// the flattened fields in their final order, the embedded fallback (if any),
+// the folded-name index (folded name -> field IDs in lookup order), and the error.
+func VerifStructFields(t reflect.Type) (flattened []VerifField, fallback *VerifField, byFolded map[string][]int, err error) {
+	fs, serr := makeStructFields(t)
+	if serr != nil {
+		return nil, nil, nil, serr
+	}
+	for i := range fs.flattened {
+		flattened = append(flattened, verifField(&fs.flattened[i]))
+	}
+	if fs.embeddedFallback != nil {
+		f := verifField(fs.embeddedFallback)
+		fallback = &f
+	}
+	byFolded = map[string][]int{}
+	for k, v := range fs.byFoldedName {
+		for _, f := range v {
+			byFolded[k] = append(byFolded[k], f.id)
+		}
+	}
+	return flattened, fallback, byFolded, nil
+}
+
+// VerifParseFieldOptions exposes parseFieldOptions.
+func VerifParseFieldOptions(sf reflect.StructField) (out VerifField, ignored bool, err error) {
+	o, ignored, err := parseFieldOptions(sf)
+	return VerifField{Name: o.name, QuotedName: o.quotedName, HasName: o.hasName, NameNeedEscape: o.nameNeedEscape,
+		Casing: o.casing, Embed: o.embed, Omitzero: o.omitzero, Omitempty: o.omitempty, String: o.string, Format: o.format}, ignored, err
+}
